@@ -212,9 +212,10 @@ Theorem C14_blocks_all_or_nothing : forall (A : Type) (bs : list (blk A)) (xs : 
 Proof. exact collect_all_or_nothing. Qed.
 Print Assumptions C14_blocks_all_or_nothing.
 
-(* ... and the exception is the one of the FIRST bad block, however many records were handed out before it. *)
-Theorem C14_blocks_raise_at_first_bad_block : forall (A : Type) (pre : list (blk A)) (m : list string) (tl : list (blk A)),
-  forallb good pre = true -> collect (pre ++ BBad m :: tl) = AvRaise m.
+(* ... and the exception is the one of the FIRST bad block, however many records were handed out before it -- those of
+   the blocks before ([pre]) and those of the bad block itself that precede its damage ([p]). *)
+Theorem C14_blocks_raise_at_first_bad_block : forall (A : Type) (pre : list (blk A)) (p : list A) (m : list string) (tl : list (blk A)),
+  forallb good pre = true -> collect (pre ++ BBad p m :: tl) = AvRaise m.
 Proof. exact collect_raises_at_first_bad_block. Qed.
 Print Assumptions C14_blocks_raise_at_first_bad_block.
 
@@ -250,15 +251,15 @@ Proof. exact cache_transparent. Qed.
 Print Assumptions C14_decode_cache_transparent.
 
 (* ... whereas registering the entry BEFORE decoding and filling it record by record is not: one manifest of three
-   blocks, the second undecodable, read twice -- the second read returns the first block's entry. *)
+   blocks, the second undecodable, read twice -- the second read returns the entries handed out before the failure. *)
 Theorem C14_eager_decode_cache_refuted : ~ eager_transparent.
 Proof. exact eager_refuted. Qed.
 Print Assumptions C14_eager_decode_cache_refuted.
 
 Example C14_blocks_nonvacuous :
   collect w_blocks_sample = AvRaise ["EOFError"; "Exception"]%string
-  /\ fst (stream w_blocks_sample) = [w_df 8%N]
-  /\ fst (run_eager w_blocks [] [5%N; 5%N]) = [AvRaise ["EOFError"; "Exception"]%string; AvOk [w_df 8%N]]
+  /\ fst (stream w_blocks_sample) = [w_df 8%N; w_df 7%N]
+  /\ fst (run_eager w_blocks [] [5%N; 5%N]) = [AvRaise ["EOFError"; "Exception"]%string; AvOk [w_df 8%N; w_df 7%N]]
   /\ fst (run_decodes (fun b => collect (w_blocks b)) [] [5%N; 5%N]) = [AvRaise ["EOFError"; "Exception"]%string; AvRaise ["EOFError"; "Exception"]%string]
   /\ collect [BGood [w_df 8%N]; BGood []; BGood [w_df 9%N]] = AvOk [w_df 8%N; w_df 9%N].
 Proof. repeat split; vm_compute; reflexivity. Qed.
